@@ -1372,3 +1372,7 @@ if __name__ == "__main__":
     src2v3_reader.main()
     main3()
     main3r()
+    import src2v3_capi  # work package capiT: coq/gen/Src3a.v (C interface, fails closed per item)
+    src2v3_capi.main()
+    import src2v3_keys  # work package capiT: coq/gen/Src3k.v (curve25519-parser, fails closed per item)
+    src2v3_keys.main()
